@@ -137,17 +137,19 @@ impl SingleSubLowerer<'_, '_> {
 
             Err(def_id) => {
                 // exported sub
-                let sub_info = self.sub_info.unwrap();
+                // (no sub info: e.g. a timeline, which has no instruction for calling subs)
+                let sub_info = self.sub_info.ok_or_else(|| self.unsupported(stmt_span, "call to a sub in this kind of script"))?;
                 match self.ctx.defs.user_func_qualifier(def_id).expect("isn't user func?") {
                     Some(sp_pat!(token![inline])) => Err(self.unsupported(stmt_span, "call to inline func")),
                     Some(sp_pat!(token![const])) => panic!("leftover const func call during lowering"),
-                    None => match sub_info.call_reg_info.as_ref() {
-                        None => {
-                            self.lower_eosd_call(stmt_span, stmt_data, call, &sub_info.exported_subs.subs[&def_id])
-                        },
-                        Some(call_reg_info) => {
-                            self.lower_reg_call(stmt_span, stmt_data, call, &sub_info.exported_subs.subs[&def_id], call_reg_info)
-                        },
+                    None => {
+                        // (not an exported sub: e.g. a function defined inside another function)
+                        let sub = sub_info.exported_subs.subs.get(&def_id)
+                            .ok_or_else(|| self.unsupported(stmt_span, "call to a function that is not an exported sub"))?;
+                        match sub_info.call_reg_info.as_ref() {
+                            None => self.lower_eosd_call(stmt_span, stmt_data, call, sub),
+                            Some(call_reg_info) => self.lower_reg_call(stmt_span, stmt_data, call, sub, call_reg_info),
+                        }
                     },
                 }
             },
